@@ -399,6 +399,20 @@ def one_pass(ctx: CaseCtx, vtf, inputs: Dict[Tuple[int, Any, int], bytes], phase
         ctx.bad('sheet-mismatch', 'particle sheet data differs after save/read', witness=dict_diff(want_sheet, got_sheet), phase=phase)
     elif want_sheet:
         run.count('sheets_compared')
+    # --- the documented way to read "only metadata": the same header fields, resources and sheet, no frame decoded
+    try:
+        head = vm.VTF.read(io.BytesIO(data), header_only=True)
+        h_meta, h_res, h_sheet = meta_of(head), resources_of(head), sheet_of(head)
+    except Exception as exc:
+        ctx.bad('header-only-read-raises', f'VTF.read(header_only=True) of the saved file raised {type(exc).__name__}: {exc}',
+                witness={'file_len': len(data)}, phase=phase)
+    else:
+        run.count('header_only_reads')
+        for name, full, part in (('header fields', got_meta, h_meta), ('resources', got_res, h_res), ('sheet', got_sheet, h_sheet)):
+            if full != part:
+                ctx.bad('header-only-read-differs', f'VTF.read(header_only=True) gives other {name} than a full read of the same bytes',
+                        witness=dict_diff(full, part), phase=phase)
+                break
 
     # --- frame table
     want_keys, got_keys = set(vtf._frames), set(back._frames)
@@ -911,4 +925,4 @@ def replay(run, data) -> None:
 
 
 # (kept at the end of the file so that the text above stays the description the check was first built to)
-RULE += ' ' + 'Later additions: refused copy_from() (wrong length, other size) and a frame copied onto itself on lazily loaded frames; a few large textures (256x1 .. 1x4096, 128x128, 256x64: eight and more mipmap levels).'
+RULE += ' ' + 'Later additions: refused copy_from() (wrong length, other size) and a frame copied onto itself on lazily loaded frames; a few large textures (256x1 .. 1x4096, 128x128, 256x64: eight and more mipmap levels). Every saved file is also read with header_only=True: header fields, resources and sheet equal those of the full read.'
